@@ -54,12 +54,16 @@ def effects(ctx, name):
     leaves = eng.tabulate(key)
     rows = []
     for lf in leaves:
-        pre = None
+        pre, gcase, pcase = None, None, None
         for t, v in lf.cond:
             if t[0] == "discr" and t[1][0] == "cell_value":
                 pre = v
+            elif t[0] == "atomic_result" and t[1] == "load":
+                gcase = v            # the path depends on the value just loaded from the global flag
+            elif t[0] == "discr" and t[1] == ("field", ("param", 0, "state"), "flag"):
+                pcase = v            # the path depends on the saved flag passed to restore
             else:
-                raise AnchorError(f"{key}: branches on {T.show(t)}, not on the local flag")
+                raise AnchorError(f"{key}: branches on {T.show(t)}, which is neither the local override, the loaded global flag nor the saved flag")
         writes, atomics, reads = [], [], []
         for tr in lf.trace:
             if tr[0] in ("cell_set", "cell_take", "cell_get"):
@@ -75,7 +79,7 @@ def effects(ctx, name):
                 if not is_global(tr[2]):
                     raise AnchorError(f"{key}: atomic operation on something other than IS_ENABLED: {tr[2]}")
                 atomics.append((tr[1], tr[3] if len(tr) > 4 else None))
-        rows.append({"pre": pre, "writes": writes, "atomics": atomics, "ret": lf.ret, "trace": lf.trace})
+        rows.append({"pre": pre, "gcase": gcase, "pcase": pcase, "writes": writes, "atomics": atomics, "ret": lf.ret, "trace": lf.trace})
     return rows, P.body(key).get("def_span")
 
 
@@ -104,18 +108,24 @@ def r1(ctx):
 @rule("C20.R2", "is_enabled: local override first, the global flag only when the override is Global")
 def r2(ctx):
     rows, site = effects(ctx, "is_enabled")
-    got = {}
     for r in rows:
-        if r["ret"][0] == "atomic_result" and r["atomics"] and r["atomics"][0][0] == "load":
-            got[r["pre"]] = "load(IS_ENABLED)"
-        elif r["ret"][0] == "int":
-            got[r["pre"]] = bool(r["ret"][1])
-        else:
-            got[r["pre"]] = T.show(r["ret"])
-        ctx.ob(f"is_enabled[{r['pre']}] no writes", not r["writes"] and all(a[0] == "load" for a in r["atomics"]), "is_enabled modifies state", site=site)
-    want = {"Global": "load(IS_ENABLED)", "Enabled": True, "Disabled": False}
-    for k, v in want.items():
-        ctx.ob(f"is_enabled[{k}]", got.get(k) == v, f"is_enabled with override {k} yields {got.get(k)}, expected {v}", site=site, sample={k: str(got.get(k))})
+        ctx.ob(f"is_enabled[{r['pre']},{r['gcase']}] no writes", not r["writes"] and all(a[0] == "load" for a in r["atomics"]), "is_enabled modifies state", site=site)
+    # evaluate the extracted summary on the 3 x 2 state space (override, global flag)
+    for local in ("Global", "Enabled", "Disabled"):
+        for g in (0, 1):
+            hit = [r for r in rows if r["pre"] in (None, local) and (r["gcase"] is None or int(bool(r["gcase"])) == g)]
+            if len(hit) != 1:
+                raise AnchorError(f"is_enabled: {len(hit)} paths for override {local}, global {g}")
+            ret = hit[0]["ret"]
+            if ret[0] == "atomic_result" and ret[1] == "load":
+                val = bool(g)
+            elif ret[0] == "int":
+                val = bool(ret[1])
+            else:
+                raise AnchorError(f"is_enabled returns {T.show(ret)}")
+            want = {"Global": bool(g), "Enabled": True, "Disabled": False}[local]
+            ctx.ob(f"is_enabled[{local},global={g}]", val == want, f"is_enabled with override {local} and global flag {bool(g)} yields {val}, expected {want}"
+                   + (" (an own override must win over the global setting)" if local != "Global" else ""), site=site, sample={f"{local},{g}": val})
 
 
 WANT = {
@@ -158,10 +168,14 @@ def r3(ctx):
         ctx.ob("local_take", ok, f"local_take: writes {r['writes']}, atomics {r['atomics']}, returns {T.show(ret)}; expected Cell::take of the override", site=site,
                sample={"returns": T.show(ret)})
     rows, site = effects(ctx, "restore")
-    for r in rows:
-        ok = r["writes"] == [("field", ("param", 0, "state"), "flag")] and not r["atomics"]
-        ctx.ob("restore", ok, f"restore writes {[T.show(w) for w in r['writes']]} / {r['atomics']}; expected the saved flag only", site=site,
-               sample={"writes": [T.show(w) for w in r["writes"]]})
+    for saved in ("Global", "Enabled", "Disabled"):
+        hit = [r for r in rows if r["pcase"] in (None, saved) and r["pre"] is None]
+        if len(hit) != 1:
+            raise AnchorError(f"restore: {len(hit)} paths for saved flag {saved}")
+        r = hit[0]
+        ok = r["writes"] in ([("field", ("param", 0, "state"), "flag")], [flag(saved)]) and not r["atomics"]
+        ctx.ob(f"restore[{saved}]", ok, f"restore of a saved {saved} writes {[T.show(w) for w in r['writes']] or 'nothing'} / {r['atomics']}; expected exactly the saved flag "
+               f"(whatever the override currently is)", site=site, sample={"saved": saved, "writes": [T.show(w) for w in r["writes"]]})
 
     # who-references: every body in the workspace
     allowed_global = {TE + n for n in ("enable", "disable", "toggle", "is_enabled")}
